@@ -276,6 +276,155 @@ def record_correspondence(tier):
     return len(exp), bad
 
 
+SCOPE_LEVEL = False      # switched on with the xmlscopes request of the model driver
+
+
+def scope_correspondence(tier, seed):
+    """the prefix map the writer attaches to the element of every container (document, each bundleContent) against
+    the model (XmlScope.nsmap_of): generated API programs plus the scoping and fixed families are run on the
+    implementation, every document of the final world is written, and lxml's nsmap of the document element and of each
+    bundleContent element is compared with the model's map for the same program ("" stands for the default namespace)"""
+    import random
+    from harness import common, progs, corr
+    from harness.sexp import dumps, loads
+    from harness.props import c13
+    from lxml import etree
+    rng = random.Random(seed * 31 + 7)
+    programs = progs.scoping_programs(()) + c13.fixed_programs()
+    n = 60 if tier == "quick" else 800
+    for i in range(n):
+        ops, _ = progs.generate(rng.randrange(1 << 60), rng.randrange(5, 22), rng.choice(["json", "mixed", "records"]), observe_each=False)
+        programs.append([o for o in ops if o[0] not in ("ExportJson", "ExportProvn", "LoadJson", "ToGraph", "GraphRoundTrip", "ObserveAll")])
+    PROVU = "http://www.w3.org/ns/prov#"
+    exp, reqs = [], []
+    for ops in programs:
+        im = I.Impl()
+        ok = True
+        for op in ops:
+            try:
+                im.step(op)
+            except Exception:
+                ok = False
+                break
+        if not ok:
+            continue
+        maps = []
+        for d in im.docs:
+            try:
+                text = d.serialize(format="xml")
+                root = etree.fromstring(text.encode("utf-8"))
+            except Exception:
+                maps.append(None)              # not expressible in XML (a prefix lxml refuses, ...)
+                continue
+            conts = [root] + [k for k in root if k.tag == "{%s}bundleContent" % PROVU]
+            maps.append([{("" if k is None else k): v for k, v in c.nsmap.items()} for c in conts])
+        exp.append((ops, maps))
+        reqs.append(dumps(["xmlscopes", I.float_table(ops)] + ops))
+    outs = common.run_model_batch(reqs)
+    bad = []
+    ncont = 0
+    for (ops, maps), o in zip(exp, outs):
+        m = loads(o)
+        if not isinstance(m, list) or len(m) != len(maps):
+            bad.append({"program": ops, "model": str(m)[:200]})
+            continue
+        for di, (mm, im_) in enumerate(zip(m, maps)):
+            if im_ is None:
+                continue
+            got = [{p: u for p, u in sc} for sc in mm]
+            ncont += len(im_)
+            if got != im_:
+                bad.append({"program": ops, "doc": di, "model": repr(got)[:600], "implementation": repr(im_)[:600]})
+                break
+    return ncont, bad
+
+
+def document_correspondence(tier, seed):
+    """the whole tree serialize() builds against the model (XmlScope.xml_document): document element and its scope, one
+    element per record in order, then one bundleContent per bundle with prov:id, its own scope and its records — for
+    generated API programs plus the scoping, value-grid, subtype and fixed families, force_types False and True.
+    Same-name sibling attribute elements are compared as a multiset (the library orders them by printed value); the scope
+    of an element below a container is the container's."""
+    import random
+    from harness import common, progs, xmltree
+    from harness.sexp import dumps, loads
+    from harness.props import c13
+    rng = random.Random(seed * 131 + 3)
+    programs = progs.scoping_programs(()) + c13.fixed_programs() + progs.subtype_programs(())[:40] + progs.value_grid_programs(())[:60]
+    n = 40 if tier == "quick" else 600
+    for i in range(n):
+        ops, _ = progs.generate(rng.randrange(1 << 60), rng.randrange(5, 22), rng.choice(["json", "mixed", "records"]), observe_each=False)
+        programs.append([o for o in ops if o[0] not in ("ExportJson", "ExportProvn", "LoadJson", "ToGraph", "GraphRoundTrip", "ObserveAll")])
+
+    def canon(t, container=True):
+        kids = [canon(k, k[2] == "bundleContent") for k in t[6]]
+        groups = []
+        for k in kids:
+            if groups and groups[-1][0] == (k[0], k[1]) and not container:
+                groups[-1][1].append(k)
+            else:
+                groups.append([(k[0], k[1]), [k]])
+        scope = sorted(tuple(x) for x in t[4] if x[0] != "xml") if container else None
+        return [t[1], t[2], sorted(map(tuple, t[3])), scope, t[5], [[list(g[0]), sorted(g[1], key=repr)] for g in groups]]
+    exp, reqs = [], []
+    skipped = 0
+    for ops in programs:
+        im = I.Impl()
+        ok = True
+        for op in ops:
+            try:
+                im.step(op)
+            except Exception:
+                ok = False
+                break
+        if not ok:
+            continue
+        if any((not expressible(d)) or c01.has_mixed_kinds(d) or c01.diagnose(d) for d in im.docs):
+            skipped += 1                       # a document outside the XML space or with a known-finding trait
+            continue
+
+        def several_subtypes(d):
+            # which of several subtype names becomes the element name follows Python's set order: compared per record,
+            # with the implementation's own order, by record_correspondence
+            import prov.model as M
+            for c in [d] + list(d.bundles):
+                for r in c.get_records():
+                    vs = [v for a, v in r.attributes if a == M.PROV_TYPE and isinstance(v, M.QualifiedName) and v.namespace.uri == M.PROV.uri]
+                    if len(vs) > 1:
+                        return True
+            return False
+        if any(several_subtypes(d) for d in im.docs):
+            skipped += 1
+            continue
+        for ft in (False, True):
+            trees = []
+            try:
+                for d in im.docs:
+                    trees.append(canon(xmltree.tree_of(d.serialize(format="xml", force_types=ft))))
+            except Exception:
+                continue
+            exp.append((ops, ft, trees))
+            reqs.append(dumps(["xmldocs", "true" if ft else "false", I.float_table(ops)] + ops))
+    outs = common.run_model_batch(reqs)
+    bad = []
+    ndocs = 0
+    for (ops, ft, trees), o in zip(exp, outs):
+        m = loads(o)
+        if not isinstance(m, list) or len(m) != len(trees):
+            bad.append({"program": ops, "model": str(m)[:200]})
+            continue
+        for di, (mt, it) in enumerate(zip(m, trees)):
+            ndocs += 1
+            if mt == "none":
+                bad.append({"program": ops, "doc": di, "force_types": ft, "model": "no element"})
+                break
+            got = canon(mt)
+            if got != it:
+                bad.append({"program": ops, "doc": di, "force_types": ft, "model": repr(got)[:900], "implementation": repr(it)[:900]})
+                break
+    return ndocs, skipped, bad
+
+
 def read_correspondence(tier):
     """the reader's loop body against the model (XmlRead.v): every record element of the serialised documents is put, with
     the prefix bindings in scope, under a fresh prov:document and read by the library; the records it makes are compared
@@ -387,6 +536,22 @@ def run(tier, seed, log, model_runs=True, enlarged=False):
         for b in bad[:2]:
             res["disagreements"].append({"first_difference": repr(b)[:1500],
                                          "theorem": "correspondence XmlRead.xml_read_record ~ provxml.deserialize_subtree (loop body)"})
+        if SCOPE_LEVEL:
+            n, bad = scope_correspondence(tier, seed)
+            res["coverage"]["container_scope_cases"] = n
+            log("container scopes: %d containers, %d disagreements" % (n, len(bad)))
+            for b in bad[:2]:
+                res["disagreements"].append({"first_difference": repr(b)[:1500], "program": b.get("program"),
+                                             "theorem": "correspondence XmlScope.nsmap_of ~ the nsmap provxml.serialize_bundle attaches "
+                                                        "(C02_scope_* are stated over the model)"})
+        if SCOPE_LEVEL:
+            n, sk, bad = document_correspondence(tier, seed)
+            res["coverage"]["document_tree_cases"] = n
+            log("document trees: %d documents (%d programs outside the space), %d disagreements" % (n, sk, len(bad)))
+            for b in bad[:2]:
+                res["disagreements"].append({"first_difference": repr({k: v for k, v in b.items() if k != "program"})[:1800], "program": b.get("program"),
+                                             "theorem": "correspondence XmlScope.xml_document ~ the tree provxml.serialize builds "
+                                                        "(C10_xml_document is stated over the model)"})
         n, bad = label_correspondence()
         res["coverage"]["element_name_cases"] = n
         log("element names: %d cases, %d disagreements" % (n, len(bad)))
